@@ -264,6 +264,9 @@ class ProgBuilder:
         self.nw += 1
         w = self.nw
         op = {"op": "open", "fl": self.fl(), "w": w, "algo": algo}
+        if rng.random() < 0.2:
+            # no algorithm option: the writer hashes with sha256 whatever integrity is declared
+            del op["algo"]; algo = "sha256"
         if key is not None:
             op["key"] = kx(key)
         size_mode = size_mode or rng.choice(["none", "none", "ok", "ok", "less", "more"])
@@ -367,8 +370,15 @@ class ProgBuilder:
             self.add({"op": rng.choice(["remove", "delete"]), "fl": self.fl(), "key": kx(self.some_key())})
         elif r < 0.6:
             self.add({"op": "remove_opts", "fl": self.fl(), "key": kx(self.some_key()), "fully": False})
-        elif r < 0.8:
+        elif r < 0.7:
             self.add({"op": "remove_hash", "fl": self.fl(), "sri": self.some_addr()})
+        elif r < 0.8:
+            # an integrity with several hashes names one address; the content under the other hashes stays
+            a, b = self.some_addr(), self.some_addr()
+            self.add({"op": "remove_hash", "fl": self.fl(), "sri": a if a.split("-")[0] == b.split("-")[0] else a + " " + b})
+            for x in (a, b):
+                self.add({"op": "read_hash", "fl": self.fl(), "sri": x})
+                self.add({"op": "exists", "fl": self.fl(), "sri": x})
         else:
             self.add({"op": "remove_opts", "fl": self.fl(), "key": kx(self.some_key()), "fully": True})
 
@@ -401,6 +411,40 @@ class ProgBuilder:
             self.add({"op": "damage", "kind": "symlink", "loc": loc, "target": "a:" + name}); return
         self.add({"op": "damage", "kind": "set", "loc": loc, "data": new.hex()})
 
+    def op_restore(self):
+        """the bytes under a stored address are damaged (in place, as through a hard-linked copy, or replaced), then the
+        same data is written again: the write succeeds with the same address and everything reads back (C02 / C16)"""
+        rng = self.rng
+        if not self.addrs:
+            return
+        i = rng.randrange(0, len(self.addrs))
+        sri, data = self.addrs[i], self.datas[i]
+        algo = sri.split("-")[0]
+        loc = ref.loc_c(ref.content_rel(sri))
+        r = rng.random()
+        if r < 0.4 and data:
+            b = bytearray(data); p = rng.randrange(0, len(b)); b[p] ^= 1 << rng.randrange(0, 8)
+            self.add({"op": "damage", "kind": "rot", "loc": loc, "data": bytes(b).hex()})
+        elif r < 0.7:
+            self.add({"op": "damage", "kind": "set", "loc": loc, "data": (data[: len(data) // 2] + b"?").hex()})
+        else:
+            self.add({"op": "damage", "kind": "set", "loc": loc, "data": b"".hex() if data else b"x".hex()})
+        key = self.key()
+        q = rng.random()
+        if q < 0.5:
+            self.add({"op": "write", "fl": self.fl(), "key": kx(key), "data": data.hex(), "algo": algo}); self.note_write(key, data, algo)
+        elif q < 0.7:
+            self.add({"op": "write_hash", "fl": self.fl(), "data": data.hex(), "algo": algo}); self.note_write(None, data, algo)
+        else:
+            self.nw += 1; w = self.nw
+            self.add({"op": "open", "fl": self.fl(), "w": w, "key": kx(key), "algo": algo})
+            for c in chunkings(rng, data):
+                self.add({"op": "wchunk", "w": w, "data": c.hex(), "mode": "write_all"})
+            self.add({"op": "commit", "w": w}); self.note_write(key, data, algo)
+        self.add({"op": "read_hash", "fl": self.fl(), "sri": sri})
+        if self.keys:
+            self.add({"op": "read", "fl": self.fl(), "key": kx(rng.choice(self.keys))})
+
     def final_lookups(self):
         for k in self.keys[:8]:
             self.add({"op": "metadata", "fl": self.fl(), "key": kx(k)})
@@ -428,6 +472,30 @@ def api_program(rng, flavour, n, weights, big=0.0, hostile=0.15, stream_kw=None)
         elif k == "insert": b.add(rand_insert(rng, b.key(), b.fl()))
     b.final_lookups()
     return b.prog
+
+def relist_programs(rng, flavour, n):
+    """C10: list, then the key's bucket file is deleted (full removal / clear) and re-created with a record of exactly the
+    same length (same key, time and size, other bytes), then list again in the same process; tombstone + rewrite too"""
+    for _ in range(n):
+        key = rand_key(rng, 0.2)
+        algo = rng.choice(hashes.ALGOS)
+        m = rng.randrange(1, 40)
+        d1, d2 = rand_bytes(rng, m), rand_bytes(rng, m)
+        t = str(rng.choice([7, 1700000000123]))
+        other = rand_key(rng, 0.0) + "-o"
+        def wr(d, fl):
+            return [{"op": "open", "fl": fl, "w": 1, "key": kx(key), "algo": algo, "time": t}, {"op": "wchunk", "w": 1, "data": d.hex(), "mode": "write_all"}, {"op": "commit", "w": 1}]
+        prog = [{"op": "write", "fl": pick_fl(rng, flavour), "key": kx(other), "data": rand_bytes(rng, 5).hex()}]
+        prog += wr(d1, pick_fl(rng, flavour))
+        prog += [{"op": "list"}, {"op": "metadata", "fl": pick_fl(rng, flavour), "key": kx(key)}]
+        r = rng.random()
+        if r < 0.45: prog.append({"op": "remove_opts", "fl": pick_fl(rng, flavour), "key": kx(key), "fully": True})
+        elif r < 0.8: prog.append({"op": "clear", "fl": pick_fl(rng, flavour)})
+        else: prog.append({"op": "remove", "fl": pick_fl(rng, flavour), "key": kx(key)})
+        if rng.random() < 0.3: prog.append({"op": "list"})
+        prog += wr(d2, pick_fl(rng, flavour))
+        prog += [{"op": "list"}, {"op": "metadata", "fl": pick_fl(rng, flavour), "key": kx(key)}, {"op": "read", "fl": pick_fl(rng, flavour), "key": kx(key)}]
+        yield prog
 
 # ---------------------------------------------------------------- C05: foreign keys sharing a bucket file
 def foreign_bucket_programs(rng, flavour, n):
